@@ -540,45 +540,8 @@ func checkC19(w *World, r *Report) {
 	r.guard("R19.5", func() {
 		wv := w.Method("data/encoding", "JSONWriter", "writeValue")
 		fd, _ := w.FuncDecl(wv)
-		val := paramObj(p, fd, 1)
-		// default arm: only json.Marshal(value) → Write
-		okDef := false
-		rawQuote := false
-		ast.Inspect(fd.Body, func(x ast.Node) bool {
-			switch y := x.(type) {
-			case *ast.CaseClause:
-				if y.List == nil {
-					marshal, writesRaw := false, false
-					ast.Inspect(y, func(z ast.Node) bool {
-						if ce, ok := z.(*ast.CallExpr); ok {
-							if c := calleeOf(p, ce); c != nil {
-								if c.FullName() == "encoding/json.Marshal" && objOfIdent(p, ce.Args[0]) == val {
-									marshal = true
-								}
-								if (c.Name() == "WriteString" || c.Name() == "WriteByte" || c.Name() == "Write") && len(ce.Args) == 1 {
-									ast.Inspect(ce.Args[0], func(a ast.Node) bool {
-										if id, ok := a.(*ast.Ident); ok && p.TypesInfo.Uses[id] == val {
-											writesRaw = true
-										}
-										return true
-									})
-								}
-							}
-						}
-						return true
-					})
-					okDef = marshal && !writesRaw
-				}
-			case *ast.CallExpr:
-				if c := calleeOf(p, y); c != nil && c.Name() == "WriteByte" && len(y.Args) == 1 {
-					if v, ok := ConstInt(p, y.Args[0]); ok && v == '"' {
-						rawQuote = true
-					}
-				}
-			}
-			return true
-		})
-		r.Check(okDef && !rawQuote, "R19.5", "JSONWriter.writeValue string arm", fd.Pos(), "json.Marshal(value) only", "string values can be written without JSON escaping (hand-written quoting or a raw fast path): a backslash or quote in a value produces text that decodes to a different value or not at all")
+		why := c19StringArm(w)
+		r.Check(why == "", "R19.5", "JSONWriter.writeValue string arm", fd.Pos(), "json.Marshal(value) only", "string values can be written without JSON escaping (hand-written quoting or a raw fast path): "+why+": a backslash or quote in a value produces text that decodes to a different value or not at all")
 		// bracket balance in encodeJsonChildren
 		enc := w.Method("data/encoding", "JSONWriter", "encodeJsonChildren")
 		efd, _ := w.FuncDecl(enc)
@@ -689,4 +652,170 @@ func bracketBalances(p *packagesPackage, stmts []ast.Stmt) []int {
 		out = append(out, k)
 	}
 	return out
+}
+
+// c19StringArm (R19.5): in JSONWriter.writeValue — helpers it hands the value
+// to included — the value reaches the output unescaped only under a test that
+// the leaf's type is boolean or an integer; when the type is none of the
+// kinds the switch names, the only thing written is json.Marshal(value); and
+// nothing writes a quote character by hand.
+func c19StringArm(w *World) string {
+	f := w.SSAFunc(w.Method("data/encoding", "JSONWriter", "writeValue"))
+	if f == nil || len(f.Params) != 3 {
+		panic(undecided{"JSONWriter.writeValue"})
+	}
+	sym := NewSym(w)
+	type site struct {
+		cond *pcF
+		pos  token.Pos
+	}
+	var raw, marshalled []site
+	quote := token.NoPos
+	isWrite := func(c *ssa.CallCommon) bool {
+		n := ""
+		if c.IsInvoke() {
+			n = c.Method.Name()
+		} else if g := c.StaticCallee(); g != nil {
+			n = g.Name()
+		}
+		return n == "WriteString" || n == "Write" || n == "WriteByte" || n == "WriteRune"
+	}
+	// derivedRaw: v is the value itself (possibly converted), not a Marshal result
+	var derived func(v ssa.Value, val ssa.Value, d int) string
+	derived = func(v ssa.Value, val ssa.Value, d int) string {
+		if d > 6 {
+			return ""
+		}
+		if v == val {
+			return "raw"
+		}
+		switch x := v.(type) {
+		case *ssa.Convert:
+			return derived(x.X, val, d+1)
+		case *ssa.ChangeType:
+			return derived(x.X, val, d+1)
+		case *ssa.MakeInterface:
+			return derived(x.X, val, d+1)
+		case *ssa.BinOp:
+			if derived(x.X, val, d+1) != "" || derived(x.Y, val, d+1) != "" {
+				return "raw" // concatenation with hand-written text
+			}
+		case *ssa.Slice:
+			return derived(x.X, val, d+1)
+		case *ssa.Extract:
+			if c, ok := x.Tuple.(*ssa.Call); ok && c.Call.StaticCallee() != nil && c.Call.StaticCallee().String() == "encoding/json.Marshal" {
+				if len(c.Call.Args) == 1 && derived(c.Call.Args[0], val, d+1) == "raw" {
+					return "marshal"
+				}
+			}
+		case *ssa.Call:
+			if g := x.Call.StaticCallee(); g != nil && (g.String() == "fmt.Sprintf" || g.String() == "strconv.Quote") {
+				for _, a := range x.Call.Args {
+					if derived(a, val, d+1) != "" {
+						return "raw"
+					}
+				}
+				if len(x.Call.Args) == 2 {
+					if sl, ok := x.Call.Args[1].(*ssa.Slice); ok {
+						for _, l := range sliceLiteral(sl) {
+							if derived(l, val, d+1) != "" {
+								return "raw"
+							}
+						}
+					}
+				}
+			}
+		}
+		return ""
+	}
+	var scan func(g *ssa.Function, val ssa.Value, frames []*pcF, ctx *symCtx, depth int)
+	scan = func(g *ssa.Function, val ssa.Value, frames []*pcF, ctx *symCtx, depth int) {
+		for _, b := range g.Blocks {
+			for _, in := range b.Instrs {
+				c, ok := in.(ssa.CallInstruction)
+				if !ok {
+					continue
+				}
+				cc := c.Common()
+				cond := sym.PathCond(g.Blocks[0], b, ctx)
+				for _, fr := range frames {
+					cond = pcAndF(cond, fr)
+				}
+				if isWrite(cc) {
+					args := cc.Args
+					for _, a := range args {
+						if k, ok := intConstOf(a); ok && k == '"' {
+							quote = in.Pos()
+						}
+						switch derived(a, val, 0) {
+						case "raw":
+							raw = append(raw, site{cond, in.Pos()})
+						case "marshal":
+							marshalled = append(marshalled, site{cond, in.Pos()})
+						}
+					}
+					continue
+				}
+				// handed on to a function of the package
+				if h := cc.StaticCallee(); h != nil && h.Pkg == f.Pkg && h.Blocks != nil && depth < 3 {
+					for i, a := range cc.Args {
+						if derived(a, val, 0) == "raw" && i < len(h.Params) {
+							if call, ok := in.(*ssa.Call); ok {
+								scan(h, h.Params[i], append(append([]*pcF{}, frames...), cond), &symCtx{call: call, parent: ctx}, depth+1)
+							}
+						}
+					}
+				}
+			}
+		}
+	}
+	scan(f, f.Params[2], nil, nil, 0)
+	kindOf := func(a *pcAtom) string {
+		if ex, ok := a.v.(*ssa.Extract); ok && ex.Index == 1 {
+			if ta, ok := ex.Tuple.(*ssa.TypeAssert); ok && ta.CommaOk {
+				if n, ok := ta.AssertedType.(*types.Named); ok {
+					return n.Obj().Name()
+				}
+			}
+		}
+		return ""
+	}
+	if quote.IsValid() {
+		return "a quote character is written by hand at " + w.PosStr(quote)
+	}
+	for _, s := range raw {
+		msg := pcImplies(s.cond, kindOf, func(env map[string]bool) bool { return env["Boolean"] || env["Uinteger"] || env["Integer"] })
+		if msg != "" {
+			return "the raw value is written at " + w.PosStr(s.pos) + " for a type that is not boolean or integer (" + msg + ")"
+		}
+	}
+	// the string arm: none of the named kinds
+	reached := false
+	for _, s := range marshalled {
+		atoms := s.cond.atoms()
+		var free []*pcAtom
+		env := map[string]bool{}
+		for _, a := range atoms {
+			if kindOf(a) != "" {
+				env[a.key] = false
+			} else {
+				free = append(free, a)
+			}
+		}
+		if len(free) > 16 {
+			continue
+		}
+		for m := 0; m < 1<<len(free); m++ {
+			for i, a := range free {
+				env[a.key] = m&(1<<i) != 0
+			}
+			if s.cond.eval(env, map[*pcF]bool{}) {
+				reached = true
+			}
+		}
+	}
+	if !reached {
+		return "for a type that is none of the kinds the switch names nothing writes json.Marshal(value)"
+	}
+	return ""
 }
